@@ -748,6 +748,11 @@ def foreign_corrupt_cases(rng, tier, flavour="asan"):
         out += kdlegacy.corrupt_cases(rng, tier, flavour=flavour)
     except Exception as ex:       # noqa: BLE001
         C.log(f"[robustgen] kdlegacy not used: {ex}")
+    try:
+        from . import meshlegacy
+        out += meshlegacy.corrupt_cases(rng, tier, flavour=flavour)
+    except Exception as ex:       # noqa: BLE001
+        C.log(f"[robustgen] meshlegacy not used: {ex}")
     return out
 
 
@@ -870,13 +875,26 @@ def stream_fields(data, trace=None):
             nd = r.b[r.pos]
             fields.append(Field(r.pos, "byte", "num_attributes_decoders", nd))
             r.u8()
-            if nd != 1:
+            if nd == 0 or nd > 8:
                 return fields
-            natt = _att_descs(r, fields, ver, "att")
+            # DecodeAttributesDecoderData of every decoder comes first (descriptors; sequential: + decoder types)
+            for d in range(nd):
+                natt = _att_descs(r, fields, ver, "att")
+                if method == 0:
+                    for i in range(natt):
+                        fields.append(Field(r.pos, "byte", "seq.decoder_type", r.b[r.pos]))
+                        r.u8()
             if method == 0:
-                for i in range(natt):
-                    fields.append(Field(r.pos, "byte", "seq.decoder_type", r.b[r.pos]))
+                return fields
+            if nd > 1:
+                if ver < 0x0203:
+                    return fields
+                # kd-tree 2.3: the payloads of the decoders follow one another
+                for d in range(nd):
+                    level = r.b[r.pos]
+                    fields.append(Field(r.pos, "byte", "kd.compression_level", level))
                     r.u8()
+                    _kd_payload(r, fields, ver, level)
                 return fields
             if ver < 0x0203:
                 # legacy kd-tree attribute data: method, compression level, a second point count, then the payload of
@@ -923,12 +941,13 @@ def stream_fields(data, trace=None):
             nd = r.b[r.pos]
             fields.append(Field(r.pos, "byte", "num_attributes_decoders", nd))
             r.u8()
-            if nd != 1:
+            if nd == 0 or nd > 8:
                 return fields
-            natt = _att_descs(r, fields, ver, "att")
-            for i in range(natt):
-                fields.append(Field(r.pos, "byte", "seq.decoder_type", r.b[r.pos]))
-                r.u8()
+            for d in range(nd):
+                natt = _att_descs(r, fields, ver, "att")
+                for i in range(natt):
+                    fields.append(Field(r.pos, "byte", "seq.decoder_type", r.b[r.pos]))
+                    r.u8()
             return fields
         # Edgebreaker
         fields.append(Field(r.pos, "byte", "eb.traversal_decoder_type", r.b[r.pos]))
@@ -1000,6 +1019,39 @@ def stream_fields(data, trace=None):
 
 
 SMALL_VALUES = (0, 1, 2, 3, 4, 5, 6, 7, 8, 0x0f, 0x10, 0x7e, 0x7f, 0x80, 0x81, 0xfe, 0xff)
+
+
+def eb_decoder_head_mutations(data, fields):
+    """multi-byte edits of the Edgebreaker attribute decoder heads ((att_data_id, decoder type, traversal method) per
+    decoder): every permutation of two heads, every head copied over another one, decoder count +-1: decoders that
+    claim each other's connectivity data / the position data, mixed vertex / corner decoder types"""
+    out = []
+    heads = {}
+    for f in fields:
+        m = re.match(r"eb\.decoder\[(\d+)\]\.(att_data_id|decoder_type|traversal_method)$", f.name)
+        if m:
+            heads.setdefault(int(m.group(1)), {})[m.group(2)] = f.off
+    ids = sorted(i for i, h in heads.items() if "att_data_id" in h)
+    if len(ids) < 2:
+        return out
+    per = len(heads[ids[0]])
+    def head(i):
+        o = heads[i]["att_data_id"]
+        return o, bytes(data[o:o + per])
+    for i in ids:
+        for j in ids:
+            if i == j:
+                continue
+            oi, hi = head(i)
+            oj, hj = head(j)
+            x = bytearray(data)
+            x[oi:oi + per] = hj          # head j copied over head i
+            out.append(("field:eb.decoder_head_copy", bytes(x)))
+            if i < j:
+                x = bytearray(data)
+                x[oi:oi + per], x[oj:oj + per] = hj, hi
+                out.append(("field:eb.decoder_head_swap", bytes(x)))
+    return out
 
 
 def field_mutations(data, fields, exhaustive=False, max_nibbles=24):
@@ -1161,73 +1213,83 @@ def legacy_kd_bases(rng, n):
 
 
 def splice_decoders(streams):
-    """One point cloud stream with several attributes decoders out of single-decoder point cloud streams of the same
-    class (sequential or kd-tree 2.3), version and number of points: num_attributes_decoders = k, then the descriptor
-    blocks of all decoders, then their payloads (PointCloudDecoder::DecodePointAttributes reads all
-    DecodeAttributesDecoderData blocks first). Unique ids are renumbered. None when the layouts do not allow it."""
+    """One stream with several attributes decoders out of single-decoder streams of the same class (sequential point
+    cloud / mesh with raw indices, kd-tree 2.3) whose bytes up to the decoder count are identical (same version, point
+    count, connectivity): num_attributes_decoders = k, then the descriptor blocks of all decoders, then their payloads
+    (PointCloudDecoder::DecodePointAttributes reads all DecodeAttributesDecoderData blocks first). Unique ids are
+    renumbered. None when the layouts do not allow it."""
     parts = []
+    off0 = None
     for s in streams:
         b = s.data
-        if len(b) < 17 or b[7] != 0 or b[9] | b[10] << 8 or b[15] != 1:
+        if len(b) < 17 or b[9] | b[10] << 8:
             return None
-        try:
-            r = _Rd(b, 16)
-            fs = []
-            _att_descs(r, fs, b[5] << 8 | b[6], "att")
-            desc_end = r.pos
-            if b[8] == 0:       # sequential: one decoder type per attribute belongs to the decoder data
-                natt = next(f.value for f in fs if f.name == "att.num_attributes")
-                desc_end += natt
-        except (IndexError, StopIteration):
+        fs = stream_fields(b)
+        nd = [f for f in fs if f.name == "num_attributes_decoders"]
+        if len(nd) != 1 or nd[0].value != 1:
             return None
-        parts.append((bytearray(b[16:desc_end]), b[desc_end:], fs))
-    b0 = streams[0].data
-    if any(s.data[:15] != b0[:15] for s in streams):
-        return None
+        off = nd[0].off
+        if off0 is None:
+            off0 = off
+        if off != off0 or b[:off] != streams[0].data[:off]:
+            return None
+        dfs = [f for f in fs if f.off > off and f.name.startswith(("att.", "seq.decoder_type"))]
+        if not dfs:
+            return None
+        desc_end = max(f.off + f.length for f in dfs)
+        parts.append((bytearray(b[off + 1:desc_end]), b[desc_end:], [f for f in dfs if f.name == "att.unique_id"], off + 1))
     uid = 0
-    for desc, _, fs in parts:
-        for f in fs:
-            if f.name == "att.unique_id":
-                if f.length != 1 or uid > 127:
-                    return None
-                desc[f.off - 16] = uid
-                uid += 1
-    return b0[:15] + bytes([len(parts)]) + b"".join(bytes(d) for d, _, _ in parts) + b"".join(p for _, p, _ in parts)
+    for desc, _, uids, base in parts:
+        for f in uids:
+            if f.length != 1 or uid > 127:
+                return None
+            desc[f.off - base] = uid
+            uid += 1
+    b0 = streams[0].data
+    return b0[:off0] + bytes([len(parts)]) + b"".join(bytes(d) for d, _, _, _ in parts) + b"".join(p for _, p, _, _ in parts)
 
 
 def spliced_bases(rng, n):
-    """valid kd-tree 2.3 and sequential point clouds with 2 or 3 attributes decoders (the encoder never writes them)"""
+    """valid point clouds (kd-tree 2.3, sequential) and sequential meshes with raw indices carrying 2 or 3 attributes
+    decoders (the encoder never writes them)"""
     lines, metas = [], []
     for i in range(n):
         k = rng.choice([2, 2, 3])
         npts = rng.choice([3, 8, 20, 70])
-        method = i % 2      # 0 sequential, 1 kd-tree
+        kind = i % 3      # 0 sequential pc, 1 kd-tree pc, 2 sequential mesh
+        faces = []
+        if kind == 2:
+            npts = rng.choice([3, 4, 6, 9])
+            faces = [tuple(rng.randrange(npts) for _ in range(3)) for _ in range(rng.randint(1, 6))]
         group = []
         for j in range(k):
-            dt = rng.choice(["u32", "u16", "u8"] if method else ["u32", "u8", "i16", "f32"])
+            dt = rng.choice(["u32", "u16", "u8"] if kind == 1 else ["u32", "u8", "i16", "f32"])
             c = rng.randint(1, 3)
             t = G.POSITION if j == 0 else rng.choice([G.GENERIC, G.COLOR])
             a = G.Attr(t, G.DT[dt], c, False, j, npts, None, G.make_values(rng, G.DT[dt], c, npts, style="small" if dt != "f32" else None))
-            g = G.Geom(False, npts, [], [a])
+            g = G.Geom(kind == 2, npts, list(faces), [a])
             group.append(len(lines))
-            lines.append(f"enc method={method} speed=5,5 -- " + g.to_text())
-        metas.append((method, group))
+            if kind == 2:
+                lines.append("enc expert=1 method=0 g:compress_connectivity=0 -- " + g.to_text())
+            else:
+                lines.append(f"enc method={kind} speed=5,5 -- " + g.to_text())
+        metas.append((kind, group))
     outs = run_encoder(lines, "encsplice")
     if outs is None:
         return None
     res = []
-    for method, group in metas:
+    for kind, group in metas:
         ss = []
         for gi in group:
             if not outs[gi].startswith("ok "):
                 break
-            ss.append(Stream("part", bytes.fromhex(outs[gi].split()[1]), False, "part", [0]))
+            ss.append(Stream("part", bytes.fromhex(outs[gi].split()[1]), kind == 2, "part", [0]))
         if len(ss) != len(group):
             continue
         data = splice_decoders(ss)
         if data is not None:
-            fam = ("spliced_kd" if method else "spliced_seq") + str(len(ss))
-            res.append(Stream("struct:" + fam, data, False, fam, [0, 2, 4]))
+            fam = ("spliced_seq", "spliced_kd", "spliced_seq_mesh")[kind] + str(len(ss))
+            res.append(Stream("struct:" + fam, data, kind == 2, fam, [0, 2, 4]))
     return res
 
 
@@ -1288,6 +1350,7 @@ def structured_cases(rng, tier, flavour, oracles, streams=None, n_each=None, per
     for s in bases:
         fields = stream_fields(s.data, traces.get(id(s)))
         muts = field_mutations(s.data, fields, exhaustive=thorough and len(s.data) < 400)
+        muts += eb_decoder_head_mutations(s.data, fields)
         if per_stream and len(muts) > per_stream:
             muts = rng.sample(muts, per_stream)
         skip = "01234" if rng.random() < 0.6 else "".join(str(t) for t in s.present)[:1] or "0"
